@@ -59,7 +59,7 @@ type wlMerge struct {
 	Files     []*PFile   `json:"files"`
 	Order     []int      `json:"order"` // delivery: indexes into Files (permutation, possibly with a duplicate)
 	Schema    string     `json:"schema"`
-	Conflicts []Conflict `json:"injected,omitempty"` // informational: what the generator injected; the oracle derives conflicts from the plan
+	Conflicts []Conflict `json:"injected,omitempty"`  // informational: what the generator injected; the oracle derives conflicts from the plan
 	AltOrder  []int      `json:"alt_order,omitempty"` // perm variant: second delivery order
 	Cold      bool       `json:"cold,omitempty"`      // cold restart of the parser caches before the call
 	Warm      int        `json:"warm,omitempty"`      // unrelated parses before the call
